@@ -286,7 +286,7 @@ H_Revoke(st, req, p) ==
     IF ~l.ok THEN NotFound(st, l)
     ELSE LET o == st.objs[l.u] IN
     IF ~HasState(o.type) THEN Fail(st, "IllegalOperation")
-    ELSE IF p.code = "KEY_COMPROMISE"
+    ELSE IF p.code \in {"KEY_COMPROMISE", "CA_COMPROMISE"}
          THEN Ok([st EXCEPT !.objs[l.u].state = "Compromised"], <<l.u>>)
          ELSE IF o.state # "Active" /\ Mut # "revoke_any" THEN Fail(st, "IllegalOperation")
               ELSE Ok([st EXCEPT !.objs[l.u].state = "Deactivated"], <<l.u>>)
